@@ -58,18 +58,18 @@ Qed.
 (* ---------------------------------------------------------------- thread pools *)
 Definition nested2 : tree Z := Node (Old 10) m0 (FCons "a" (lf 1) (FCons "n" (Node (Old 11) m0 (FCons "c" (lf 2) FNil)) FNil)).
 
-(* a non-tensor entry that out= already holds, written without validation (checked): both forms write a new entry with
-   self's data; the single-threaded form gives it the metadata of self's entry, the thread-pool form those of out[key] *)
+(* a non-tensor entry that out= already holds, written without validation (checked) — the former witness of C20-g: both
+   forms write a new entry with self's data AND the metadata of self's entry (before the repair the thread-pool form gave it
+   the metadata of out[key]: device cpu here) *)
 Definition out_g : tree Z := Node (Old 30) (mkMeta [3%nat] (Some CPU) None false)
                                (FCons "t" (NonT (Old 32) 50 (mkMeta [3%nat] (Some CPU) None false)) FNil).
-Lemma mt_nontensor_out_witness :
+Lemma mt_nontensor_out_agree :
   let o := with_checked base_opts in
-  exists m f m' f',
+  exists m f,
     st_front Z o (fn_of []) false false self_f [] (Some out_g) None = MOk (Some (Node (Old 30) m f))
     /\ fget Z f "t" = Some (NonT New 5 m0)
-    /\ mt_front Z o (fn_of []) false false self_f [] (Some out_g) None [0%nat] = MOk (Some (Node (Old 30) m' f'))
-    /\ fget Z f' "t" = Some (NonT New 5 (mkMeta [3%nat] (Some CPU) None false)).
-Proof. cbv zeta. do 4 eexists. split; [vm_compute; reflexivity|]. split; [reflexivity|]. split; [vm_compute; reflexivity|reflexivity]. Qed.
+    /\ mt_front Z o (fn_of []) false false self_f [] (Some out_g) None [0%nat] = MOk (Some (Node (Old 30) m f)).
+Proof. cbv zeta. do 2 eexists. split; [vm_compute; reflexivity|]. split; [reflexivity|vm_compute; reflexivity]. Qed.
 
 (* the repaired thread-pool form on the former defects: out= with a nested tensordict, default= below the root,
    filter_empty=None with an all-None subtree, names= with a nested tensordict, checked with another device *)
